@@ -1370,3 +1370,16 @@ Proof.
   apply andb_true_iff in H. destruct H as (H1 & H2). split; [apply disc_cov; auto|].
   destruct (step Sim st e) as [st1 [y|]]; auto.
 Qed.
+
+(* ---- the code before patch F-C02-1 (Legacy) --------------------------------------------------- *)
+Lemma late_report_witness_legacy :
+  exists evs st t,
+    Forall (fun e => tuner_ev e = true) evs /\
+    Forall (fun e => match e with Start reps | Resume _ reps => StronglySorted rle reps | _ => True end) evs /\
+    run Legacy init evs = (st, None) /\ nth_error (trials st) 0%nat = Some t /\
+    runs_of t = [ ([(1, 0%Z); (2, 1%Z)], [(1, 0%Z)], Decided);
+                  ([(3, 100%Z)], [(2, 1%Z); (3, 100%Z)], Live) ]%Q.
+Proof.
+  exists late_evs. eexists. eexists. split; [repeat constructor|]. split; [unfold late_evs; ss|].
+  split; [vm_compute; reflexivity|]. split; vm_compute; reflexivity.
+Qed.
